@@ -12,7 +12,7 @@ pub const ID_CAP: u32 = 260;
 /// 0 move-through, 1 replace by a fresh token, 2 clone-and-keep, 3 move-through written as
 /// `|t: Tok| -> Tok {..}`, 4 a function path instead of a closure (cannot exit early)
 pub const N_CLOSURES: u8 = 5;
-pub const N_SHAPES: u8 = 18;
+pub const N_SHAPES: u8 = 23;
 
 #[derive(Serialize, Deserialize, Clone, Copy, Debug, PartialEq)]
 pub enum Exit {
@@ -195,7 +195,12 @@ pub fn shape_layout(shape: u8) -> Vec<bool> {
         14 => vec![true, true],                           // packed struct
         15 => vec![true, true],                           // struct with ZST / unit fields
         16 => vec![true, false],                          // generic tuple struct, type form
-        _ => vec![false, true, true, false, false, true, true, false], // [_, (b), c, .., x, y, _] over 8
+        17 => vec![false, true, true, false, false, true, true, false], // [_, (b), c, .., x, y, _] over 8
+        18 => vec![true; 5],                              // [rest @ .., z]
+        19 => vec![true; 5],                              // [a, rest @ ..]
+        20 => vec![false, false, false],                  // [..] alone
+        21 => vec![true, true, true],                     // multi-segment path: crate::..::S3 {x, y, z}
+        _ => vec![true, false],                           // [a] and [_]
     }
 }
 
